@@ -216,8 +216,12 @@ struct Exact {
     // Smallest global parameter t >= tp with |C(t) - v| <= eps: per piece (junctions are hard
     // breaks), dense scan for local minima of the distance + golden-section refinement.
     // Returns false if none; dmin_seen/tout then describe the closest approach met.
-    bool find_from(P2 v, LD tp, LD eps, LD& tout, LD& dmin_seen) const {
+    // fine > 1: careful mode, the scan step is `fine` times smaller and evaluated on the fly (needed
+    // next to cusps, where a vertex at t*-d has a mirror near-minimum at t*+d closer than one
+    // table step).
+    bool find_from(P2 v, LD tp, LD eps, LD& tout, LD& dmin_seen, int fine = 1) const {
         const LD INF = 1e300L;
+        const int mper = this->mper * fine;
         int n = (int)pieces.size();
         dmin_seen = INF;
         tout = tp;
@@ -235,7 +239,7 @@ struct Exact {
             for (;;) {
                 bool has_next = j <= mper;
                 LD sn = sa, dn = INF;
-                if (has_next) { sn = (LD)j / mper; dn = dist(j == mper ? pc.eval(1) : tab[(size_t)i * mper + j], v); }
+                if (has_next) { sn = (LD)j / mper; dn = dist(j == mper ? pc.eval(1) : fine == 1 ? tab[(size_t)i * mper + j] : pc.eval(sn), v); }
                 if (da <= dprev && da <= dn) {
                     LD t, d;
                     refine(pc, v, dprev == INF ? sa : sprev, has_next ? sn : sa, t, d);
